@@ -137,6 +137,21 @@ PROPS['C08'] = dict(
     level_text='Bounded symbolic model checking: both grids are symbolic, so one symbolic case covers all concrete pairs of grids of those sizes; the real equality test forks element by element; on every path each entry point must throw the differing-grids exception exactly when the path condition implies the grids differ, leave operands unchanged, and on equal-grid paths return the shared-instance result.',
     level_note='Exact reals; grid sizes, windows, orders, entry points enumerated to the bound; trusted: g++, libz3, sym.h/harness.h, oracle in C08_grids.cpp, Gauss stub.')
 
+PROPS['C12'] = dict(
+    engine='A', technique='symbolic-scalar execution of the real generic interpolate<T,order,Solver> with a nondeterministic linear-solver stub (arbitrary solution of M x = b) + QF_NRA obligations, exact-rational replay',
+    harnesses=[dict(name='C12_interp', src='C12_interp.cpp',
+                    defs=dict(quick=['-DMAXO=4', '-DMAXNODES=4', '-DFULLSEQ_MAXO=3'], thorough=['-DMAXO=5', '-DMAXNODES=5', '-DFULLSEQ_MAXO=4']),
+                    functions=['interpolation::interpolate<T,order,Solver>', 'interpolation::internal::defaultBoundaries', 'internal::facultyRatio', 'Support::operator[]', 'Support::size',
+                               'Support::back', 'Spline::Spline', 'Spline::operator()', 'Spline::findInterval'])],
+    bounds=dict(quick='orders 1..4; 2..4 abscissae, as the whole grid and as a window of a larger grid (padding 1+1 and 2+0); default boundaries and, for orders <=3, EVERY ordered sequence of order-1 (node, derivative 1..order) conditions with symbolic values (order 4: every multiset); abscissae, ordinates, boundary values and the solver output symbolic',
+                thorough='orders 1..5, 2..5 abscissae, every ordered sequence up to order 4'),
+    outside='the bundled Eigen/Armadillo adapters and their backward error (floating point, dense QR) - second sentence of the statement; orders/node counts above the bound',
+    stubs=['StubSolver (in C12_interp.cpp): M(i,j)/b(i) store terms; solve() returns fresh variables constrained only by M x = b (contract of an exact solver)'],
+    assumptions=['abscissae strictly increasing reals', 'the solver returns a solution of the assembled system', 'exact real arithmetic'],
+    trusted=A_TRUST,
+    level_text='Bounded symbolic model checking of the exact clause: the real assembly code runs on symbolic data; whatever solution of its system the solver returns, the real operator() of the returned spline must give the ordinate at every node, adjacent pieces must agree in derivatives 1..order-1 at interior nodes, and every boundary condition must hold. Contradictory systems (path condition unsat) are recorded as outside the claim, not as passes.',
+    level_note='Exact reals; orders, node counts, paddings and boundary sequences enumerated to the bound; the Eigen/Armadillo solvers are not part of the claim; trusted: g++, libz3, sym.h/harness.h, oracle + StubSolver in C12_interp.cpp.')
+
 _NOT_BUILT = 'check not built yet in this round (planned, see DESIGN.md section 5)'
 NOT_APPLICABLE = {
     'C16': 'floating-point forward-error bound: bit-precise FP or (1+delta) NRA encodings of even the smallest instance return unknown/timeout on every installed solver (DESIGN.md section 7)',
